@@ -1,0 +1,29 @@
+//go:build verif
+
+package pgptools
+
+import "io"
+
+// Accessors for the verification harness (build tag verif, add-only).
+
+// VerifSerializeHeader exposes serializeHeader (new-format packet header, RFC 4880 section 4.2.2).
+func VerifSerializeHeader(w io.Writer, ptype int, length int) error {
+	return serializeHeader(w, ptype, length)
+}
+
+// VerifSerializeLiteral exposes serializeLiteral (literal data packet of a known size).
+func VerifSerializeLiteral(w io.Writer, r io.Reader, size int32, filename string) error {
+	return serializeLiteral(w, r, size, filename)
+}
+
+// VerifGetSize exposes getSize.
+func VerifGetSize(r io.Reader) int32 { return getSize(r) }
+
+// VerifWriteOnePass exposes writeOnePass.
+func VerifWriteOnePass(w io.Writer, sig []byte) error { return writeOnePass(w, sig) }
+
+// VerifHeadClearSign exposes headClearSign.
+func VerifHeadClearSign(r io.Reader, w io.Writer) error { return headClearSign(r, w) }
+
+// VerifTailClearSign exposes tailClearSign.
+func VerifTailClearSign(r io.Reader) ([]byte, error) { return tailClearSign(r) }
